@@ -19,7 +19,7 @@ def run(prop, path):
         if kind == "behaviour":
             tags = ALL if r.get("exact_tags") == "ALL" else set(r.get("exact_tags") or [])
             steps = r["steps"]
-            with Executor() as ex:
+            with Executor(profile=r.get("profile", "release")) as ex:
                 rp = Replayer(ex, make_leaves(leaves_of(steps), r.get("seed", 1)), exact_tags=tags, prefix="r_",
                               memo={}, **(r.get("options") or {}))
                 idx, bad = rp.run(steps)
